@@ -2,9 +2,9 @@
    the extracted OCaml driver and the in-Coq vm_compute sample.  A case is a command number and
    a list of fields (each a list of N: bytes or numbers); the result is a list of N in the same
    canonical serialisation the Go harness prints for the implementation. *)
-From Coq Require Import NArith List Bool.
+From Coq Require Import NArith ZArith List Bool.
 From StunV Require Import Base.ListAux Base.Outcome Base.Bytes Base.Slice Model.MsgType Model.Message Model.Rfc Model.RfcAttrs
-  Model.Crc32 Model.Sha1 Model.Sha256 Model.Md5 Model.Hmac Model.Attrs Model.Ops.
+  Model.Crc32 Model.Sha1 Model.Sha256 Model.Md5 Model.Hmac Model.Attrs Model.Ops Model.Agent Model.Client.
 Import ListNotations.
 Open Scope N_scope.
 
@@ -232,6 +232,123 @@ Definition run_c04 (sub : N) (args : list (list N)) : list N :=
   | _, _ => bad_case
   end.
 
+(* C10 / C11 / C12 / C15: Client histories.
+   1001 <[rto; maxAttempts; closeConn; fallback]> <op> <op> ...
+   op = [1; id; h; raw...] Start (h >= 100: Do) | [2; raw...] Indicate | [3; datagram...] Deliver
+      | [4; now] collector tick at time now | [5; now] set the clock | [6; rto] SetRTO
+      | [7; i1; i2; ...] the next write of each listed instance fails (65535: indications) | [8] Close
+   result per operation: number of observations, then each observation (sorted by instance within
+   the operation): write = [1; inst; time; len; crc]; handler invocation = [2; inst; h; result code; len; crc];
+   fallback = [3; h; id; kind; len; crc]; connection closed = [4]; return = [5; code] *)
+Definition CUR_CLIENT_FIX_CLOSE : bool := true.
+Definition CUR_CLIENT_FIX_BUF : bool := true.
+
+(* transaction IDs are compared on all 96 bits: the model's id is the big-endian number; the harness
+   builds the ID of the small number i as  i/256, i mod 256, 0 x 9, 0x5A  and prints the first two bytes *)
+Definition tid_id (tid : list byte) : N := fold_left (fun acc b => acc * 256 + b) (take 12 tid) 0.
+Definition mk_tid (i : N) : list byte := [i / 256; i mod 256; 0; 0; 0; 0; 0; 0; 0; 0; 0; 0x5A].
+Definition small_id (id : N) : N := id / 1208925819614629174706176.
+Definition res_code (r : res) : list N :=
+  match r with
+  | HRMsg d => [1; lenN d; crc32_fast d]
+  | HRTimeout => [2; 0; 0] | HRAgentClosed => [3; 0; 0] | HRStopped => [4; 0; 0]
+  | HRClientClosed => [5; 0; 0] | HRExists => [6; 0; 0] | HRAgentErr => [7; 0; 0]
+  | HRWriteErr => [8; 0; 0] | HRStopErr => [9; 0; 0]
+  end.
+Definition evk_code (k : evk) : list N :=
+  match k with EMsg d => [1; lenN d; crc32_fast d] | ETimeout => [2; 0; 0] | EAgentClosed => [3; 0; 0] | EStopped => [4; 0; 0] end.
+Definition retc_code (r : retc) : N :=
+  match r with CNil => 0 | CClientClosed => 1 | CTxExists => 2 | CAgentErr _ => 3 | CWriteErr => 4 | CStopErr => 5 end.
+Definition obs_key (o : obs) : N :=
+  match o with OWrite i _ _ => i | OIndWrite _ _ => 65535 | OInvoke i _ _ => i | OFallback _ _ _ => 70000 | OConnClose => 80000 | ORet _ => 90000 end.
+Definition ser_obs (o : obs) : list N :=
+  match o with
+  | OWrite i b t => [1; i; Z.to_N t; lenN b; crc32_fast b]
+  | OIndWrite b t => [1; 65535; Z.to_N t; lenN b; crc32_fast b]
+  | OInvoke i h r => [2; i; h] ++ res_code r
+  | OFallback h id k => [3; h; small_id id] ++ evk_code k
+  | OConnClose => [4]
+  | ORet r => [5; retc_code r]
+  end.
+Fixpoint ins_obs (o : obs) (l : list obs) : list obs :=
+  match l with
+  | [] => [o]
+  | x :: r => if obs_key x <=? obs_key o then x :: ins_obs o r else o :: l
+  end.
+(* stable sort by instance: keeps the order of the observations of one instance *)
+Definition sort_obs (l : list obs) : list obs := fold_left (fun acc o => ins_obs o acc) l [].
+
+Definition parse_cop (f : list N) : option cop :=
+  match f with
+  | 1 :: id :: h :: raw => Some (CStart (tid_id (mk_tid id)) raw h)
+  | 2 :: raw => Some (CIndicate raw)
+  | 3 :: d => Some (CDeliver d)
+  | [4; now] => Some (CTick (Z.of_N now))
+  | [5; now] => Some (CSetNow (Z.of_N now))
+  | [6; r] => Some (CSetRTO (Z.of_N r))
+  | 7 :: insts => Some (CFail insts)
+  | [8] => Some CClose
+  | _ => None
+  end.
+Fixpoint run_client (c : client) (fs : list (list N)) : list N :=
+  match fs with
+  | [] => []
+  | f :: r =>
+    match parse_cop f with
+    | None => bad_case
+    | Some o =>
+      let '(c', ob) := c_step CUR_CLIENT_FIX_CLOSE CUR_CLIENT_FIX_BUF tid_id c o in
+      (lenN ob :: flat_map ser_obs (sort_obs ob)) ++ run_client c' r
+    end
+  end.
+Definition run_c10 (sub : N) (args : list (list N)) : list N :=
+  match sub, args with
+  | 1, [rto; maxA; cc; fb] :: opfs =>
+    run_client (new_client (Z.of_N rto) maxA (negb (cc =? 0)) (if fb =? 0 then None else Some fb)) opfs
+  | _, _ => bad_case
+  end.
+
+(* C13: Agent histories.  1301 <op> <op> ...   times/deadlines are offsets (N) from a base instant
+   op = [1; id; deadline] Start | [2; id; e] StopWithError (e = 0: Stop) | [3; id] Process
+      | [4; t] Collect | [5; h] SetHandler | [6] Close
+   result per operation: return code (0 ok 1 closed 2 exists 3 not-exists), number of events, then the
+   events sorted: handler, id, kind, error *)
+Definition parse_aop (f : list N) : option aop :=
+  match f with
+  | [1; id; d] => Some (AStart id (Z.of_N d))
+  | [2; id; e] => Some (AStopErr id e)
+  | [3; id] => Some (AProcess id)
+  | [4; t] => Some (ACollect (Z.of_N t))
+  | [5; h] => Some (ASetHandler h)
+  | [6] => Some AClose
+  | _ => None
+  end.
+Definition aret_code (r : aret) : N := match r with ROk => 0 | RClosed => 1 | RExists => 2 | RNotExists => 3 end.
+(* insertion sort of events by (id, kind): at most one event per id in one call *)
+Fixpoint ins_ev (e : aevent) (l : list aevent) : list aevent :=
+  match l with
+  | [] => [e]
+  | x :: r => if ev_id e <=? ev_id x then e :: l else x :: ins_ev e r
+  end.
+Definition sort_evs (l : list aevent) : list aevent := fold_right ins_ev [] l.
+Fixpoint run_agent (s : agent) (fs : list (list N)) : list N :=
+  match fs with
+  | [] => []
+  | f :: r =>
+    match parse_aop f with
+    | None => bad_case
+    | Some o =>
+      let '(s', (ret, evs)) := a_step s o in
+      [aret_code ret; lenN evs] ++ flat_map (fun e => [ev_h e; ev_id e; ev_kind e; ev_err e]) (sort_evs evs)
+      ++ run_agent s' r
+    end
+  end.
+Definition run_c13 (sub : N) (args : list (list N)) : list N :=
+  match sub with
+  | 1 => run_agent (new_agent 1) args
+  | _ => bad_case
+  end.
+
 (* C18: pooled HMAC histories.
    1801 <[algo]> <op> <op> ...   algo 1 = SHA-1, 256 = SHA-256
    op = [1; key...] acquire | [2; bytes...] write | [3; prefix...] sum | [4] reset | [5] put
@@ -280,6 +397,8 @@ Definition run (cmd : N) (args : list (list N)) : list N :=
   | 4 => run_c04 (cmd mod 100) args
   | 6 => run_c06 (cmd mod 100) args
   | 7 => run_c07 (cmd mod 100) args
+  | 10 => run_c10 (cmd mod 100) args
+  | 13 => run_c13 (cmd mod 100) args
   | 18 => run_c18 (cmd mod 100) args
   | 19 => run_c19 (cmd mod 100) args
   | _ => bad_case
